@@ -418,13 +418,13 @@ for p in sys.argv[1:]:
         i = start or 0
         while ok and i < len(code):
             op, arg = code[i], code[i + 1]
+            if i in pending:                      # a jump target (it may be an EXTENDED_ARG prefix)
+                depth -= pending.pop(i)
             i += 2
             if dis.opname[op] == 'EXTENDED_ARG':
                 ext = (ext << 8) | arg
                 continue
             arg, ext = (ext << 8) | arg, 0
-            if (i - 2) in pending:
-                depth -= pending.pop(i - 2)
             if dis.opname[op] in ('JUMP_IF_TRUE_OR_POP', 'JUMP_IF_FALSE_OR_POP'):
                 # codegen.rs (emit_binop, and/or) keeps counting the left operand while the right one is evaluated and
                 # decrements after it: the simulation follows that accounting (an over-approximation by one, harmless)
